@@ -1413,3 +1413,180 @@ def ag_compress_cap(mk, geom, opt, chi):
     mk.same("outer labels unchanged", sorted(res.outer_inds()), sorted(out))
     if not AG_OPTS[opt].get("lazy"):
         mk.same("one tensor per site", [len(res.tag_map[s]) for s in sites], [1] * len(sites))
+
+
+# ---------------------------------------------------------------------- projector schemes: projector2d / CTMRG / HOTRG
+
+# The oblique projectors are built from eigen-decompositions of Gram matrices of two-tensor regions and
+# an SVD of the product of the two reduced factors; the certificate that P_l P_r acts as the identity
+# between the regions needs multipliers beyond the engine's degree bound as soon as the cut carries a bond
+# of dimension 2.  Symbolic instances therefore keep the bonds ACROSS every compressed cut at dimension 1
+# ("product cut": the bonds along the sweep direction are 2), which still runs the whole region selection /
+# projector insertion / re-tagging / contraction bookkeeping on symbols; the numeric cross-run has bond 2
+# everywhere.  The two building blocks are certified separately on the real functions (projector_lemmas).
+
+def _cut_pattern(direction):
+    """bonds along the sweep direction of `direction` are 2, the bonds across the compressed cuts are 1"""
+    return "cols" if direction[0] == "x" else "rows"
+
+
+_PROJ_CALLS = {
+    "projector2d": lambda tn, cap, seq, kw: tn.contract_boundary(max_bond=cap, cutoff=0.0, mode="projector2d", sequence=seq, **kw),
+    "projector2d-lazy": lambda tn, cap, seq, kw: tn.contract_boundary(max_bond=cap, cutoff=0.0, mode="projector2d", sequence=seq,
+                                                                     lazy=True, final_contract=False, **kw),
+    "ctmrg": lambda tn, cap, seq, kw: tn.contract_ctmrg(max_bond=cap, cutoff=0.0, sequence=seq, **kw),
+    "ctmrg-lazy": lambda tn, cap, seq, kw: tn.contract_ctmrg(max_bond=cap, cutoff=0.0, sequence=seq, lazy=True, **kw),
+    "ctmrg-strip": lambda tn, cap, seq, kw: tn.contract_ctmrg(max_bond=cap, cutoff=0.0, sequence=seq, strip_exponent=True, **kw),
+    "hotrg": lambda tn, cap, seq, kw: tn.contract_hotrg(max_bond=cap, cutoff=0.0, sequence=tuple(d[0] for d in seq), **kw),
+    "hotrg-lazy": lambda tn, cap, seq, kw: tn.contract_hotrg(max_bond=cap, cutoff=0.0, sequence=tuple(d[0] for d in seq), lazy=True, **kw),
+    "hotrg-eq": lambda tn, cap, seq, kw: tn.contract_hotrg(max_bond=cap, cutoff=0.0, sequence=tuple(d[0] for d in seq), equalize_norms=1.0, **kw),
+    "hotrg-cholesky": lambda tn, cap, seq, kw: tn.contract_hotrg(max_bond=cap, cutoff=0.0, sequence=tuple(d[0] for d in seq),
+                                                               reduce_opts=dict(method="cholesky"), **kw),
+}
+
+
+def _proj_params():
+    out = []
+    cells = [((4, 3), ("xmin",), {}), ((4, 3), ("xmax",), {}), ((3, 4), ("ymin",), {}), ((3, 4), ("ymax",), {}),
+             ((4, 4), ("xmin", "xmax"), {}), ((4, 4), ("ymax", "ymin"), {}), ((3, 3), ("xmin",), {}), ((3, 3), ("ymax",), {}),
+             ((5, 3), ("xmin",), {}), ((4, 4), ("xmin", "ymin"), {"num_only_2d": True})]
+    for shape, seq, extra in cells:
+        for call in _PROJ_CALLS:
+            if call.startswith("hotrg") and seq[0].endswith("max"):
+                continue              # HOTRG has lattice directions ('x', 'y'), not sides
+            if call.startswith("hotrg") and shape in ((3, 3),) and False:
+                continue
+            q = shape in ((4, 3), (3, 4)) and seq in (("xmin",), ("ymin",)) and call in ("projector2d", "ctmrg", "hotrg")
+            out.append({"shape": shape, "seq": seq, "call": call, "two": bool(extra), "_tiers": _Q if q else _T})
+    return out
+
+
+@obligation(PROP, params=_proj_params(), **_CERT)
+@certified
+def projector_schemes_exact(mk, shape, seq, call, two):
+    """contract_boundary(mode='projector2d') / contract_ctmrg / contract_hotrg (+ lazy, strip_exponent,
+    equalize_norms, cholesky reduction) with cap >= exact bond and cutoff 0: the exact value.  Symbolic
+    instances: product cut (see above); numeric cross-run: bond 2 everywhere"""
+    mk.encodes(c2.TensorNetwork2D.contract_ctmrg, c2.TensorNetwork2D.contract_hotrg, c2.TensorNetwork2D.coarse_grain_hotrg,
+               c2.TensorNetwork2D._contract_boundary_projector, c2.TensorNetwork2D._contract_boundary_core_via_1d,
+               tc.TensorNetwork.insert_compressor_between_regions, decomp.compute_oblique_projectors,
+               decomp.squared_op_to_reduced_factor, c1c.tensor_network_1d_compress)
+    Lx, Ly = shape
+    if two and mk.sym:
+        return _numeric_only(mk, "cuts in both lattice directions: no product-cut instance exists")
+    tn = lattice2d(mk, Lx, Ly, _cut_pattern(seq[0]), kind="real", numkind="cplx")
+    want = exact(tn)
+    kw = {"max_unfinished": 0} if two else {}
+    with spectrum("pos"):
+        res = _PROJ_CALLS[call](tn, 4 if max(Lx, Ly) < 5 else 8, seq, kw)
+    if "lazy" in call:
+        mk.same("lazy: a network with the projectors left in is returned", isinstance(res, qtn.TensorNetwork), True)
+    mk.eq(f"{call}(max_bond>=exact, cutoff=0.0, sequence={seq}) == exact value", value(res), want)
+    mk.eq("the network is left alone", exact(tn), want)
+
+
+@obligation(PROP, params=[{"which": w} for w in ("oblique-2x2", "oblique-absorb", "reduced-right", "reduced-left",
+                                                  "reduced-cholesky", "insert-product", "similarity")], **_CERT)
+@certified
+def projector_lemmas(mk, which):
+    """the building blocks of every projector scheme, on the real functions with symbolic operands:
+    compute_oblique_projectors (R_l P_l P_r R_r == R_l R_r without truncation), squared_op_to_reduced_factor
+    (R^dag R == X^dag X / R R^dag == X X^dag), similarity_compress (C_l C_r == 1 without truncation),
+    insert_compressor_between_regions on a product cut"""
+    mk.encodes(decomp.compute_oblique_projectors, decomp.squared_op_to_reduced_factor, decomp.similarity_compress,
+               tc.TensorNetwork.insert_compressor_between_regions, decomp.safe_inverse)
+    k = "real" if mk.sym else "cplx"
+    if which.startswith("oblique"):
+        shp = {"oblique-2x2": ((2, 2), (2, 2)), "oblique-3x2x3": ((3, 2), (2, 3)), "oblique-absorb": ((2, 2), (2, 2))}[which]
+        Rl, Rr = mk.array("L", shp[0], k), mk.array("R", shp[1], k)
+        M = ref.matmul(Rl, Rr)
+        for absorb in (("both",) if which != "oblique-absorb" else ("left", "right")):
+            Pl, Pr = decomp.compute_oblique_projectors(Rl, Rr, max_bond=4, cutoff=0.0, absorb=absorb)
+            mk.eq(f"compute_oblique_projectors(absorb={absorb}): R_l P_l P_r R_r == R_l R_r",
+                  ref.matmul(ref.matmul(Rl, Pl), ref.matmul(Pr, Rr)), M)
+        return
+    if which.startswith("reduced"):
+        X = mk.array("X", (3, 2), k)
+        with spectrum("pos"):
+            if which == "reduced-right":
+                x2 = ref.matmul(ref.dag(X), X)
+                R = decomp.squared_op_to_reduced_factor(x2, 3, 2, right=True)
+                mk.eq("squared_op_to_reduced_factor(right=True): R^dag R == X^dag X", ref.matmul(ref.dag(R), R), x2)
+            elif which == "reduced-left":
+                Y = X.T
+                y2 = ref.matmul(Y, ref.dag(Y))
+                Lf = decomp.squared_op_to_reduced_factor(y2, 2, 3, right=False)
+                mk.eq("squared_op_to_reduced_factor(right=False): L L^dag == Y Y^dag", ref.matmul(Lf, ref.dag(Lf)), y2)
+            else:
+                x2 = ref.matmul(ref.dag(X), X)
+                R = decomp.squared_op_to_reduced_factor(x2, 3, 2, right=True, method="cholesky", shift=False)
+                mk.eq("squared_op_to_reduced_factor(method='cholesky'): R^dag R == X^dag X", ref.matmul(ref.dag(R), R), x2)
+        return
+    if which == "similarity":
+        E = mk.array("E", (2, 2), k)
+        for method in ("eig", "svd") if not mk.sym else ("svd",):
+            Cl, Cr = decomp.similarity_compress(E, 2, method=method)
+            mk.eq(f"similarity_compress(max_bond = size, {method}): C_l C_r == 1", ref.matmul(Cl, Cr), ref.eye(2, like=E))
+        return
+    # insert-product: two regions joined by two bonds of dimension 1 (a product cut) plus outer legs
+    A = qtn.Tensor(mk.array("A", (2, 1, 1), k), ("a", "k1", "k2"), tags="A")
+    B = qtn.Tensor(mk.array("B", (1, 1, 2), k), ("k1", "k2", "b"), tags="B")
+    tn = A | B
+    want = exact(tn, ("a", "b"))
+    with spectrum("pos"):
+        t2 = tn.insert_compressor_between_regions(["A"], ["B"], max_bond=4, cutoff=0.0)
+    mk.same("two projector tensors are inserted", t2.num_tensors, 4)
+    mk.eq("insert_compressor_between_regions on a product cut: value unchanged", exact(t2, ("a", "b")), want)
+
+
+def _pcap_params():
+    out = []
+    for chi in (3, 2, 1):
+        for d in "xy":
+            for opt in ("plain", "lazy", "canonize"):
+                out.append({"scheme": "coarse_grain_hotrg", "arg": d, "opt": opt, "chi": chi, "_tiers": _Q if (chi == 3 and opt == "plain") else _T})
+        for seq in (("x", "y"), ("y", "x"), ("x",), ("y",)):
+            out.append({"scheme": "contract_hotrg", "arg": seq, "opt": "plain", "chi": chi, "_tiers": _Q if (chi == 3 and seq == ("x", "y")) else _T})
+        for seq in (None, ("xmin",), ("xmax", "ymin"), ("ymax", "xmin", "ymin", "xmax")):
+            for opt in ("plain", "lazy"):
+                out.append({"scheme": "contract_ctmrg", "arg": seq, "opt": opt, "chi": chi, "_tiers": _Q if (chi == 3 and opt == "plain" and seq is None) else _T})
+    return out
+
+
+@obligation(PROP, params=_pcap_params(), wall_s=500, timeout_s=600, max_paths=64)
+def projector_schemes_cap(mk, scheme, arg, opt, chi):
+    """coarse_grain_hotrg / contract_hotrg / contract_ctmrg with a truncating cap and cutoff 0: in the network
+    handed over every bond across a compressed cut is <= chi (lazy: the bond of every projector pair), the
+    coarse lattice has the documented size"""
+    mk.encodes(c2.TensorNetwork2D.coarse_grain_hotrg, c2.TensorNetwork2D.contract_hotrg, c2.TensorNetwork2D.contract_ctmrg,
+               tc.TensorNetwork.insert_compressor_between_regions, decomp.compute_oblique_projectors)
+    if mk.sym and opt == "canonize":
+        return _numeric_only(mk, "gauge_all_simple iterates to a tolerance")
+    Lx, Ly = (4, 4) if not mk.sym else ((4, 3) if scheme != "contract_ctmrg" else (3, 3))
+    tn = lattice2d(mk, Lx, Ly, "all", kind="real", numkind="cplx")
+    lazy = opt == "lazy"
+    with shapes_only():
+        if scheme == "coarse_grain_hotrg":
+            res = tn.coarse_grain_hotrg(arg, max_bond=chi, cutoff=0.0, lazy=lazy, canonize=(opt == "canonize"))
+            nx, ny = ((Lx + 1) // 2, Ly) if arg == "x" else (Lx, (Ly + 1) // 2)
+            mk.same(f"coarse_grain_hotrg({arg!r}): coarse lattice size", (res.Lx, res.Ly), (nx, ny))
+            if not lazy:
+                mk.same("one tensor per coarse site", res.num_tensors, nx * ny)
+                mk.same("every coarse site tag is present", all(res.site_tag(i, j) in res.tag_map for i in range(nx) for j in range(ny)), True)
+        elif scheme == "contract_hotrg":
+            seq = arg if not mk.sym else arg[:1]        # symbolic run: the first coarse-graining only
+            res = tn.contract_hotrg(max_bond=chi, cutoff=0.0, sequence=seq, final_contract=False,
+                                    **({"max_separation": 1, "max_unfinished": 0} if len(seq) > 1 else {}))
+        else:
+            seq = arg
+            if mk.sym:
+                seq = (arg or ("xmin",))[:1]            # symbolic run: the first boundary step only
+            res = tn.contract_ctmrg(max_bond=chi, cutoff=0.0, sequence=seq, final_contract=False, lazy=lazy)
+    mk.same("a network is handed over", isinstance(res, qtn.TensorNetwork), True)
+    if lazy:
+        orig = set(tn.ind_map)
+        bonds = [res.ind_size(ix) for ix in res.inner_inds()
+                 if all(not (set(res.tensor_map[tid].inds) & orig) for tid in res.ind_map[ix])]
+        mk.same("lazy: every bond between two inserted projectors <= chi", max(bonds + [chi]), chi)
+    else:
+        cap_goal(mk, f"{scheme}({arg}, max_bond={chi}, cutoff=0.0, {opt})", res, max(chi, 2))
